@@ -61,6 +61,37 @@ def find_shim_fn(fx):
     return c[0] if len(c) == 1 else None
 
 
+SHIM_CTOR = "interchange::cjson::shims::PublicKey::new"     # public constructor of the wire form (keytype, scheme, hash algorithms, key text, keyid, private)
+
+
+def wire_form_args(ctx, fn_key):
+    """In the REGION of a function (module-private helpers inlined, whatever they are called and however they pass their
+    arguments): the single construction of the wire form of a public key and where its parts come from.
+    -> (region body, call term, {part: leaves}) or None"""
+    b = ctx.region(None, policy="private", key=fn_key, ps=True)
+    sc = b.calls_named(SHIM_CTOR)
+    if len(sc) != 1:
+        return None
+    t = sc[0][1]
+    flow = {"__flow_all__": lambda tt: True, "__agg_all__": True}
+    parts = {}
+    for name, ai in (("typ", 0), ("scheme", 1), ("keyid_hash_algorithms", 2)):
+        parts[name] = b.trace(t["args"][ai])
+    def expand(lv, depth=0):
+        out = []
+        for l in lv:
+            if l.kind == "agg" and l.data[2].get("agg") == "closure" and depth < 3:
+                for o in l.data[2]["ops"]:         # what a closure captures is what it can use
+                    out += expand(b.trace(o, (), None, flow), depth + 1)
+            elif l.kind != "const":
+                out.append(l)
+        return out
+    parts["value"] = expand(b.trace(t["args"][3], (), None, flow))
+    parts["keyid"] = b.trace(t["args"][4])
+    parts["private"] = b.trace(t["args"][5], (), None, flow)
+    return b, t, parts
+
+
 def check_key_table_filter(ctx, rule):
     """Parsed layouts keep only key-table entries filed under the key's own id; the builder files under key.key_id()."""
     fx = ctx.fx
